@@ -654,6 +654,15 @@ func genHostile(e *emitter, r *rng.R, n int, tier string) {
 			}
 		}
 	}
+	// 1b. well-formed queries on the virtual tables that rename columns: what one client asks for must not change
+	// what the canary (or anybody else) gets afterwards
+	for _, q := range []string{"SELECT key AS k FROM system.local", "SELECT rpc_address AS key, key AS rpc_address FROM system.local", "SELECT count(*) AS key FROM system.local",
+		"SELECT peer AS key, data_center AS peer FROM system.peers", "SELECT key AS \"KEY\", host_id AS key FROM system.local", "SELECT now() AS key FROM system.local"} {
+		for _, v := range []primitive.ProtocolVersion{3, 4, 5} {
+			add(5, startup(v), encodeReq(v, 2, &message.Query{Query: q, Options: opts}, nil), encodeReq(v, 3, &message.Query{Query: q, Options: opts}, nil))
+			add(5, startup(v), encodeReq(v, 2, &message.Prepare{Query: q}, nil))
+		}
+	}
 	// 2. big frames (the proxy enforces no frame-size limit; 16 MiB is the declared scope)
 	for _, z := range []int{1 << 16, 1 << 20, 16<<20 - 64} {
 		ops = append(ops, fmt.Sprintf("M:4 Z:%d", z))
